@@ -194,6 +194,8 @@ def run(ck, rng, tier):
             if ok:
                 ok = (np.abs(T @ Pm @ T - T).max() <= t and np.abs(Pm @ T @ Pm - Pm).max() <= t * max(1, np.abs(Pm).max()) and
                       np.abs((T @ Pm).T - T @ Pm).max() <= t and np.abs((Pm @ T).T - Pm @ T).max() <= t)
+            if ok and T.shape[0] * T.shape[1] <= 80 and np.linalg.cond(T) <= 1e3:
+                checks.add(i, "pinv", "mchk (pinv %d %d %s) %s" % (T.shape[0], T.shape[1], cm(T.tolist()), cm(o["pinv"])))
             if not ok:
                 ck.fail("MatrixMoorePenrosePseudoinverse", "penrose", "Penrose conditions violated for a %dx%d full-column-rank matrix" % T.shape, {"A": T.tolist()})
         elif kind == "ols":
